@@ -434,6 +434,19 @@ V({
     "trusted": [],
 })
 
+# -------------------------------------------------------------------------- V13
+V({
+    "id": "V13",
+    "title": "may_invalidate: MayInvalidate::{aggregate_tys, aggregate_placeholders, aggregate_projection_tys, aggregate_opaque_ty_tys} (chalk-engine/src/slg.rs)",
+    "template": "v13_may_invalidate.rs",
+    "assumptions": [
+        "V13: callee contracts not verified: aggregate_name_and_substs (iterator+closure: false only if names equal and arguments pairwise instances), aggregate_consts, aggregate_lifetimes (always true)",
+        "V13: types are finite trees; canonical forms contain no free inference variables (the code panics on one): Ty::kind's contract",
+        "V13: `ty_instance` is the term-algebra definition of 'instance of' with argument lists / constants abstract",
+    ],
+    "trusted": ["chalk-engine MayInvalidate::aggregate_name_and_substs"],
+})
+
 # ===========================================================================
 GLOBAL_ASSUMPTIONS = [
     "soundness of rustc+Kani's model of core/alloc and of CBMC; soundness of Verus and Z3",
